@@ -34,6 +34,7 @@ def plan(tier, seed):
     specs += [{"family": "thresholds", "seed": seed, "n": 1, "part": k, "parts": 16, "tier": tier} for k in range(16)]
     specs += shards("noisy", 4000 if q else 150000, 500 if q else 5000, seed)
     specs += shards("noisy_stretched", 1500 if q else 60000, 500 if q else 5000, seed)
+    specs += shards("noisy_dialects", 2400 if q else 80000, 600 if q else 5000, seed)
     specs += shards("faulted", 2000 if q else 80000, 250 if q else 4000, seed)
     specs += shards("rows", 6 ** 5 if q else 6 ** 7, 6 ** 4 if q else 6 ** 5, seed, L=5 if q else 7)
     specs += shards("corpus", 1, 1, seed)
@@ -65,10 +66,17 @@ def run_shard(spec, M):
             R = thresholds.build(dim, n)
             M.hist("threshold_dims", dim)
             doccheck.check_doc(R, M, {"kind": "threshold", "dim": dim, "n": n}, "C04")
-    elif fam in ("noisy", "noisy_stretched"):
+    elif fam in ("noisy", "noisy_stretched", "noisy_dialects"):
         for i in range(spec["start"], spec["start"] + spec["n"]):
             r = rng(seed, ID, fam, i)
             L = noisy.gen(r) if fam == "noisy" else noisy.gen_stretched(r)
+            if fam == "noisy_dialects":
+                from .. import dialects as _dl
+                names = [n for n in sorted(_dl.master()) if n != "en"]
+                L = noisy.translate(noisy.gen(r, 20), names[i % len(names)], r)
+                if L is None:
+                    M.count("noisy_dialects.skipped_ambiguous")
+                    continue
             nl = r.choice(["\n", "\n", "\r\n"])
             text = noisy.text_of(L, nl=nl, final=r.random() < 0.8 or noisy.pl_of(L[-1][1]).text == "")
             case = {"kind": "noisy", "L": L, "nl": nl, "text": text}
